@@ -40,7 +40,9 @@ def pool():
     import proof_generation.pattern as P
 
     return [P.EVar(0), P.EVar(1), P.EVar(7), P.SVar(0), P.SVar(3), P.Symbol('s0'), P.Symbol('s1'), P.MetaVar(0), P.MetaVar(1), P.MetaVar(2), P.MetaVar(5),
-            P.Implies(P.EVar(0), P.EVar(1)), P.App(P.Symbol('s0'), P.EVar(2)), P.Exists(2, P.EVar(2))]
+            P.Implies(P.EVar(0), P.EVar(1)), P.App(P.Symbol('s0'), P.EVar(2)), P.Exists(2, P.EVar(2)),
+            # look-alikes: same fields, different constructor (the generated dataclass hashes coincide)
+            P.SVar(1), P.App(P.EVar(0), P.EVar(1)), P.Mu(2, P.EVar(2)), P.ESubst(P.MetaVar(0), P.EVar(1), P.Symbol('s0')), P.SSubst(P.MetaVar(0), P.SVar(1), P.Symbol('s0'))]
 
 
 def all_notations():
@@ -258,7 +260,8 @@ def shard(stats: Stats, shard_i, nshards, seed, tier):
     common.run_given(stats, seed, n, cases(), body)
     # every notation x every single-position change over the pool (bounded exhaustive) in the thorough tier, sampled in quick
     nots = all_notations()
-    npool = len(pool())
+    pl = pool()
+    npool = len(pl)
     k = 0
     for ni, n_ in enumerate(nots):
         for pos in range(n_.arity):
@@ -266,7 +269,7 @@ def shard(stats: Stats, shard_i, nshards, seed, tier):
                 for y in range(x + 1, npool):
                     k += 1
                     if k % nshards != shard_i: continue
-                    if tier == 'quick' and (x + y) % 5: continue
+                    if tier == 'quick' and (x + y) % 5 and hash(pl[x]) != hash(pl[y]): continue
                     a = [(x + 3 * j) % npool for j in range(n_.arity)]; a[pos] = x
                     b = list(a); b[pos] = y
                     try:
